@@ -49,6 +49,10 @@ func main() {
 }
 
 func init() {
+	props["C01"] = runC01
+	props["C03"] = runC03
+	props["C04"] = runC04
+	props["C09"] = runC09
 	props["C10"] = runC10
 	props["C11"] = runC11
 	props["C15"] = runC15
